@@ -74,9 +74,27 @@ func (bb *DefaultBallotBroadcaster) set(bl base.Ballot) error {
 		return nil
 	}
 
-	if _, err := bb.pool.SetBallot(bl); err != nil {
+	switch isset, err := bb.pool.SetBallot(bl); {
+	case err != nil:
 		return errors.WithMessage(err, "set ballot to pool")
+	case isset:
+		return nil
 	}
 
-	return nil
+	// NOTE the pool already keeps the ballot of this stage point; the other
+	// ballot for same stage point should not be broadcasted (equivocation).
+	switch stored, found, err := bb.pool.Ballot(
+		bl.Point().Point,
+		bl.Point().Stage(),
+		isaac.IsSuffrageConfirmBallotFact(bl.SignFact().Fact()),
+	); {
+	case err != nil:
+		return errors.WithMessage(err, "get ballot from pool")
+	case !found:
+		return errors.Errorf("ballot not set, but not found in pool")
+	case !stored.SignFact().Fact().Hash().Equal(bl.SignFact().Fact().Hash()):
+		return errors.Errorf("different ballot already broadcasted for the stage point")
+	default:
+		return nil
+	}
 }
